@@ -61,6 +61,15 @@ def model(dae=False):
     return s
 
 
+def _all_times(ocp, opti, cfg):
+    """numeric times of every point a state guess is evaluated at (control nodes, integrator points, collocation roots) at the current starting point"""
+    out = []
+    with quiet():
+        for g in ('control', 'integrator') + (('integrator_roots',) if cfg.method == 'DC' else ()):
+            out += list(np.array(opti.debug.value(ocp.sample(ocp.t, grid=g)[1], opti.initial())).flatten())
+    return out
+
+
 def instances(tier, seed):
     rng = random.Random(seed + 19)
     items = []
@@ -93,6 +102,16 @@ def instances(tier, seed):
         for g in (fam.G_UNI, fam.G_GEO_LOC, fam.G_UNI_LT, fam.G_FREE):
             for method, intg in (('MS', 'rk'), ('DC', None)):
                 add(spec=fam.with_horizon(model(), fam.HORIZONS[2]), cfg=Cfg(method, N=2, M=1, intg=intg or 'rk', grid=g, degree=2, scheme='radau'), args=['T', 'p:a'], results=['x', 'T'])
+        if rep == 0:
+            # a guess that is an EXPRESSION of a parameter which is an argument of the Function (imperative side: set_value re-evaluates such guesses)
+            for method, intg in (('MS', 'rk'), ('DC', None)):
+                sg = model()
+                sg.initial = list(sg.initial) + [(X(0), Pg('a') * (1 + t))]
+                add(spec=sg, cfg=Cfg(method, N=2, M=1, intg=intg or 'rk', grid=fam.G_UNI, degree=2, scheme='radau'), args=['p:a'], results=['x'], expr_guess_of='a')
+            # ... and a guess that is an expression of TIME while the guess of the free end time is an argument
+            st = fam.with_horizon(model(), fam.HORIZONS[2])
+            st.initial = list(st.initial) + [(X(0), 1 + t)]
+            add(spec=st, cfg=Cfg('MS', N=2, M=1, intg='rk', grid=fam.G_UNI), args=['T'], results=['x', 'T'], expr_guess_of='T')
         for args, ress in ((['zstr'], ['x']), (['x', 'zstr'], ['x', 'u'])):
             add(spec=model(dae='vec'), cfg=Cfg('DC', N=[2, 3][n % 2], M=[1, 2][n % 2], grid=fam.G_UNI, degree=[3, 2][n % 2], scheme='radau'), args=args, results=ress)
             n += 1
@@ -141,6 +160,7 @@ def run(item):
                 ocp.set_initial(b.xs[1], 0.375)
         x0_before = list(I.nlp.x0())
         p_before = list(I.nlp.pval())
+        x0_before_opti = ocp._method.opti.debug.value(ocp._method.opti.x, ocp._method.opti.initial())
         F = ocp.to_function('F', args_mx, res_mx)
     # split the graph at the solver call
     solver = helper = None
@@ -377,6 +397,16 @@ def run(item):
     badp = [j for j in range(len(pi)) if not close(float(pi[j]), float(pa[j]), 1e-9)]
     if badp:
         V('anchor-p', 'p', 'imperative set_value gives p=%s, the Function hands %s to the solver' % (list(pi), list(pa)))
+    if badx and item.get('expr_guess_of'):
+        # is the disagreement exactly "the Function keeps the guess evaluated with the OLD parameter value, set_value re-evaluates it with the new one"?
+        a_new = float(vals[item['args'].index('p:a')][0]) if item['expr_guess_of'] == 'a' else 1.0
+        xb_ = np.array(x0_before_opti).flatten()
+        stale = all(close(float(xa[j]), float(xb_[j]), 1e-9) for j in badx)
+        follows = all(any(close(float(xi[j]), a_new * (1 + float(tn)), 1e-7) for tn in _all_times(ocp, opti, cfg)) for j in badx)
+        if stale and follows:
+            V('anchor-x0:guess-expression-of-an-argument-not-followed' + (':T' if item['expr_guess_of'] == 'T' else ''), 'x0', 'the guess of x0 is an expression (a*(1+t) / 1+t) of a quantity that is an argument (parameter a / guess of the free T): the imperative call re-evaluates the guess with the new value (entries %s start at %s), the Function keeps the guess evaluated with the value current when it was created (%s)' % (
+                badx[:6], [round(float(xi[j]), 6) for j in badx[:6]], [round(float(xa[j]), 6) for j in badx[:6]]))
+            badx = []
     if badx:
         V('anchor-x0', 'x0', 'imperative set_initial gives a different starting point than the Function on entries %s: %s vs %s' % (badx[:6], [float(xi[j]) for j in badx[:6]], [float(xa[j]) for j in badx[:6]]))
     if not badx and not badp:
